@@ -1,0 +1,83 @@
+//go:build verif
+
+// Contracts for the deductive checker in /verif (read only with -tags verif).
+
+package bigmod
+
+// The arithmetic of Nat is ASSUMED here (trusted contracts, not proved against the limb code): each
+// Nat carries a ghost integer natv (its value), a Modulus m has the value MODV(objof(m)), and a byte
+// string the big-endian value BEV(bytes). Users of the package are verified against these contracts.
+//@ ghost natv : Int
+
+//@ func NewNat trusted
+//@   ensures result != nil
+//@   fresh result
+//@   modifies nothing
+
+//@ func (*Nat).SetBytes trusted
+//@   params b m
+//@   requires m != nil
+//@   ensures err == nil ==> sameobj(result0, self) && result0 != nil && ghost(natv, self) == BEV(arr(b), offof(b), len(b)) && BEV(arr(b), offof(b), len(b)) < MODV(objof(m))
+//@   ensures err != nil ==> result0 == nil
+//@   ensures 0 <= ghost(natv, self)
+//@   modifies *self, ghost(natv, self)
+
+//@ func (*Nat).SetOverflowingBytes trusted
+//@   params b m
+//@   requires m != nil
+//@   ensures err == nil ==> sameobj(result0, self) && result0 != nil && ghost(natv, self) == BEV(arr(b), offof(b), len(b)) % MODV(objof(m))
+//@   ensures err != nil ==> result0 == nil
+//@   modifies *self, ghost(natv, self)
+
+//@ func (*Nat).SetUint trusted
+//@   params y m
+//@   requires m != nil
+//@   ensures sameobj(result, self) && result != nil && ghost(natv, self) == y % MODV(objof(m))
+//@   modifies *self, ghost(natv, self)
+
+//@ func (*Nat).Set trusted
+//@   params y
+//@   ensures sameobj(result, self) && result != nil && ghost(natv, self) == old(ghost(natv, y))
+//@   modifies *self, ghost(natv, self)
+
+//@ func (*Nat).IsZero trusted
+//@   ensures (result == 0 || result == 1) && (result == 1 <==> ghost(natv, self) == 0)
+//@   modifies nothing
+
+//@ func (*Nat).Equal trusted
+//@   params y
+//@   ensures (result == 0 || result == 1) && (result == 1 <==> ghost(natv, self) == ghost(natv, y))
+//@   modifies nothing
+
+//@ func (*Nat).Add trusted
+//@   params y m
+//@   requires m != nil
+//@   ensures sameobj(result, self) && result != nil && ghost(natv, self) == (old(ghost(natv, self)) + old(ghost(natv, y))) % MODV(objof(m))
+//@   modifies *self, ghost(natv, self)
+
+//@ func (*Nat).Sub trusted
+//@   params y m
+//@   requires m != nil
+//@   ensures sameobj(result, self) && result != nil && ghost(natv, self) == (old(ghost(natv, self)) - old(ghost(natv, y))) % MODV(objof(m))
+//@   modifies *self, ghost(natv, self)
+
+//@ func (*Nat).Mul trusted
+//@   params y m
+//@   requires m != nil
+//@   ensures sameobj(result, self) && result != nil && ghost(natv, self) == MULM(old(ghost(natv, self)), old(ghost(natv, y)), MODV(objof(m)))
+//@   modifies *self, ghost(natv, self)
+
+//@ func (*Nat).Bytes trusted
+//@   params m
+//@   requires m != nil
+//@   ensures BEV(arr(result), offof(result), len(result)) == ghost(natv, self) && len(result) == MSIZE(objof(m))
+//@   fresh result
+//@   modifies nothing
+
+//@ func (*Modulus).Size trusted
+//@   ensures result == MSIZE(objof(self)) && 1 <= result && result <= 1024
+//@   modifies nothing
+
+//@ func (*Modulus).BitLen trusted
+//@   ensures 8 * MSIZE(objof(self)) - 7 <= result && result <= 8 * MSIZE(objof(self))
+//@   modifies nothing
